@@ -45,6 +45,7 @@ type FuncContract struct {
 	asserts           []midAssert
 	implOf            *types.Signature // interface method signature (implementation units)
 	laws              []string         // table blocks: algebraic laws over the entries
+	lawProps          map[string][]string // law -> property ids (default: the block's)
 	variants          map[int]clause   // loop ordinal -> decreases expression
 	ghostStmts        []ghostStmt      // ghost assignments executed after an anchored call
 	closureSpecs      []closureSpec    // function literals created by the function: verified at their creation site
@@ -66,6 +67,8 @@ type closureSpec struct {
 	assumes  []clause // facts about captured, configuration-like state that still hold when the literal is invoked (assumed)
 	text     string
 	trusted  bool // the attributes are assumed, the body is not verified (listed as an assumption)
+	returns  []clause // extra postconditions of this literal (over its parameters, results and the captured variables)
+	when     []clause // proved where the literal is created: the literal is created only in states satisfying E
 }
 
 type ghostStmt struct {
@@ -126,6 +129,14 @@ type ContractSet struct {
 	typeInvs  map[string][]typeInv // pkgpath::TypeName -> invariants / representation clauses
 	order     []*FuncContract
 	errors    []string
+	derived   map[string]derivedProp // property id -> the obligations of other properties on some instantiations
+}
+
+// derivedProp: `instantiation-property C19: C01, C02, C03 for bool, float64` - the obligations that the generic
+// contracts of the base properties generate for the named type arguments count for the derived property.
+type derivedProp struct {
+	bases []string
+	insts []string
 }
 
 func newContractSet() *ContractSet {
@@ -203,6 +214,13 @@ func (cs *ContractSet) parseFile(pkgPath, filename string, lines []string, lineN
 			cs.funcs[pkgPath+"::"+word+":"+key] = cur
 			cs.order = append(cs.order, cur)
 			curLemma = nil
+		case "flags":
+			// flags <Func> : the operators <Func> registers as commutative have the laws the optimizer relies on
+			name := strings.TrimSpace(rest)
+			cur = &FuncContract{pkg: pkgPath, key: name, kind: "flags", invs: map[int][]clause{}, pos: where, opts: map[string]string{}}
+			cs.funcs[pkgPath+"::flags:"+name] = cur
+			cs.order = append(cs.order, cur)
+			curLemma = nil
 		case "channel":
 			// channel <Type>.<field> : ghost protocol of receives from that channel field
 			name := strings.TrimSpace(rest)
@@ -241,6 +259,26 @@ func (cs *ContractSet) parseFile(pkgPath, filename string, lines []string, lineN
 				assumeTxt = strings.TrimSpace(rest[k+8:])
 				rest = strings.TrimSpace(rest[:k])
 			}
+			var retTxt, retLabel string
+			if k := indexTop(rest, " returns"); k >= 0 && (strings.HasPrefix(rest[k+8:], " ") || strings.HasPrefix(rest[k+8:], "[")) {
+				retTxt = strings.TrimSpace(rest[k+8:])
+				rest = strings.TrimSpace(rest[:k])
+				if strings.HasPrefix(retTxt, "[") {
+					j := strings.Index(retTxt, "]")
+					retLabel = strings.TrimSpace(retTxt[1:j])
+					retTxt = strings.TrimSpace(retTxt[j+1:])
+				}
+			}
+			var whenTxt, whenLabel string
+			if k := indexTop(rest, " when"); k >= 0 && (strings.HasPrefix(rest[k+5:], " ") || strings.HasPrefix(rest[k+5:], "[")) {
+				whenTxt = strings.TrimSpace(rest[k+5:])
+				rest = strings.TrimSpace(rest[:k])
+				if strings.HasPrefix(whenTxt, "[") {
+					j := strings.Index(whenTxt, "]")
+					whenLabel = strings.TrimSpace(whenTxt[1:j])
+					whenTxt = strings.TrimSpace(whenTxt[j+1:])
+				}
+			}
 			m := regexp.MustCompile(`^("(?:[^"\\]|\\.)*")\s+as\s+([\w.]+)\s*(?:attr\s+(.*))?$`).FindStringSubmatch(rest)
 			if m == nil {
 				cs.errors = append(cs.errors, where+": expected closure-spec \"anchor\" as Type [attr g(self) = E, ...]")
@@ -262,6 +300,28 @@ func (cs *ContractSet) parseFile(pkgPath, filename string, lines []string, lineN
 						continue
 					}
 					spec.attrs = append(spec.attrs, ghostStmt{target: tx, value: vx, text: strings.TrimSpace(part)})
+				}
+			}
+			if retTxt != "" {
+				ex, err := parseSpecExpr(retTxt)
+				if err != nil {
+					cs.errors = append(cs.errors, where+": "+err.Error())
+				} else {
+					if retLabel == "" {
+						retLabel = "returns"
+					}
+					spec.returns = append(spec.returns, clause{kind: "ensures", text: retTxt, expr: ex, line: where, label: retLabel})
+				}
+			}
+			if whenTxt != "" {
+				ex, err := parseSpecExpr(whenTxt)
+				if err != nil {
+					cs.errors = append(cs.errors, where+": "+err.Error())
+				} else {
+					if whenLabel == "" {
+						whenLabel = "created-when"
+					}
+					spec.when = append(spec.when, clause{kind: "when", text: whenTxt, expr: ex, line: where, label: whenLabel})
 				}
 			}
 			if assumeTxt != "" {
@@ -330,6 +390,24 @@ func (cs *ContractSet) parseFile(pkgPath, filename string, lines []string, lineN
 			}
 			g.pkg = pkgPath
 			cs.ghosts[g.name] = g
+			cur, curLemma = nil, nil
+		case "instantiation-property":
+			m := regexp.MustCompile(`^(C\d+)\s*:\s*(.*?)\s+for\s+(.*)$`).FindStringSubmatch(strings.TrimSpace(rest))
+			if m == nil {
+				cs.errors = append(cs.errors, where+": expected `instantiation-property Cxx: Cyy, Czz for T1, T2`")
+				continue
+			}
+			var d derivedProp
+			for _, b := range strings.Split(m[2], ",") {
+				d.bases = append(d.bases, strings.TrimSpace(b))
+			}
+			for _, t := range strings.Split(m[3], ",") {
+				d.insts = append(d.insts, strings.TrimSpace(t))
+			}
+			if cs.derived == nil {
+				cs.derived = map[string]derivedProp{}
+			}
+			cs.derived[m[1]] = d
 			cur, curLemma = nil, nil
 		case "immutable":
 			for _, part := range splitTop(rest, ',') {
@@ -424,7 +502,21 @@ func (cs *ContractSet) parseFile(pkgPath, filename string, lines []string, lineN
 			}
 		case "law":
 			if cur != nil && cur.kind == "table" {
-				cur.laws = append(cur.laws, strings.TrimSpace(rest))
+				// law <name> [args]   |   law[C02,C19] <name> [args]   (property ids for this law only)
+				txt := strings.TrimSpace(rest)
+				if strings.HasPrefix(txt, "[") {
+					j := strings.Index(txt, "]")
+					var ps []string
+					for _, w := range strings.Fields(strings.ReplaceAll(txt[1:j], ",", " ")) {
+						ps = append(ps, w)
+					}
+					txt = strings.TrimSpace(txt[j+1:])
+					if cur.lawProps == nil {
+						cur.lawProps = map[string][]string{}
+					}
+					cur.lawProps[txt] = ps
+				}
+				cur.laws = append(cur.laws, txt)
 			} else {
 				cs.errors = append(cs.errors, where+": `law` belongs to a table block")
 			}
